@@ -19,6 +19,7 @@ import (
 	"encoding/binary"
 	"encoding/gob"
 	"fmt"
+	"math"
 
 	"github.com/attestantio/dirk/rules"
 	"github.com/opentracing/opentracing-go"
@@ -74,6 +75,14 @@ func (s *Service) OnSignBeaconProposal(ctx context.Context, metadata *rules.ReqM
 	// The request must have the appropriate domain.
 	if !bytes.Equal(req.Domain[0:4], e2types.DomainBeaconProposer[:]) {
 		log.Warn().Msg("Not approving non-beacon proposal due to incorrect domain")
+
+		return rules.DENIED
+	}
+
+	// Slots are stored as signed 64-bit values; refuse anything that cannot be represented, as it
+	// would otherwise wrap to a negative value and read back as "nothing signed".
+	if req.Slot > math.MaxInt64 {
+		log.Warn().Uint64("slot", req.Slot).Msg("Request slot too large to be recorded")
 
 		return rules.DENIED
 	}
